@@ -111,4 +111,48 @@ theorem strncatG_overlap (max : Nat) (cfg : Cfg) (dest dmax src slen dl : Nat) (
       (by simp) h2 (fun _ => h3) h4
     exact ⟨st', he, OvrlpPost.of_copyPost hp⟩
 
+/-- **strcat_s / (via `max`) wcscat_s detect every overlap**: the unbounded twin of `strncatG_overlap` -/
+theorem strcatG_overlap (max : Nat) (cfg : Cfg) (dest dmax src dl : Nat) (st : St)
+    (hall : ∀ a, st.mapped a = true ∧ st.rd a = true)
+    (hd : dest ≠ 0) (hs : src ≠ 0) (hpos : 0 < dmax) (hle : dmax ≤ max)
+    (hrw : RW st dest dmax)
+    (hdl : dl < dmax) (hdnz : ∀ j, j < dl → st.data (dest+j) ≠ 0) (hdnul : st.data (dest+dl) = 0)
+    (hov : (dest < src ∧ src ≤ dest + dl) ∨
+      (dest + dl < src ∧ src < dest + dmax ∧ ∀ j, j < src - (dest + dl) → st.data (src + j) ≠ 0) ∨
+      (src ≤ dest ∧ dest - src < dmax - dl ∧ ∀ j, j < dest - src → st.data (src + j) ≠ 0)) :
+    ∃ st', exec (strcatG max cfg dest dmax src none) st = .ok (ESOVRLP, st') ∧
+      OvrlpPost cfg dest dmax st st' := by
+  unfold strcatG
+  have hz : dmax ≠ 0 := by omega
+  have hmx : ¬ dmax > max := by omega
+  rw [if_neg hd, if_neg hz]
+  simp only [chkDmaxClear, chkDmaxClearG]
+  rw [if_neg hmx, if_neg hs]
+  rcases hov with ⟨h1, h2⟩ | ⟨h1, h2, h4⟩ | ⟨h1, h2, h4⟩
+  · rw [if_pos h1]
+    by_cases hin : src < dest + dl
+    · obtain ⟨st', he, hp⟩ := findEnd_hits cfg src dest dmax hpos (src - dest) dmax dest st hrw ⟨Nat.le_refl _, rfl⟩
+        (by omega) (fun j hj => hdnz j (by omega)) (by intro j hj; omega) (by omega)
+      exact ⟨st', by simp only [exec_bind, he]; rfl, hp⟩
+    · have hfe := findEnd_str cfg true src dest dmax dmax dest dl st hrw hdl hdnz hdnul (by intro _ j hj; omega)
+      simp only [exec_bind, hfe]
+      obtain ⟨st', he, hp⟩ := copyLoop_overlap_gen cfg true false src dest dmax hpos (dmax - dl) (dest + dl) src 0 0 st
+        hall hrw ⟨by omega, by omega⟩ (by simp only [if_true]; omega) (by simp) (by omega) (fun h => by cases h)
+        (by intro j hj; omega)
+      exact ⟨st', he, OvrlpPost.of_copyPost hp⟩
+  · rw [if_pos (by omega)]
+    have hfe := findEnd_str cfg true src dest dmax dmax dest dl st hrw hdl hdnz hdnul (by intro _ j hj; omega)
+    simp only [exec_bind, hfe]
+    obtain ⟨st', he, hp⟩ := copyLoop_overlap_gen cfg true false src dest dmax hpos (dmax - dl) (dest + dl) src
+      (src - (dest + dl)) 0 st hall hrw ⟨by omega, by omega⟩ (by simp only [if_true]; omega) (by simp) (by omega)
+      (fun h => by cases h) h4
+    exact ⟨st', he, OvrlpPost.of_copyPost hp⟩
+  · rw [if_neg (by omega)]
+    have hfe := findEnd_str cfg false dest dest dmax dmax dest dl st hrw hdl hdnz hdnul (by intro h; cases h)
+    simp only [exec_bind, hfe]
+    obtain ⟨st', he, hp⟩ := copyLoop_overlap_gen cfg false false dest dest dmax hpos (dmax - dl) (dest + dl) src
+      (dest - src) 0 st hall hrw ⟨by omega, by omega⟩ (by simp only [Bool.false_eq_true, if_false]; omega)
+      (by simp) h2 (fun h => by cases h) h4
+    exact ⟨st', he, OvrlpPost.of_copyPost hp⟩
+
 end SafeC
